@@ -463,6 +463,9 @@ type joinSpec struct {
 	// db.Omit(...) on the conditions handle (field names, or column names when
 	// DBNames). "Tag" (NOT NULL) is always among the remaining columns, so a
 	// matching row is never all-NULL; the key and the leading columns may be missing.
+	// Nested: Joins("Rel.Nested") - the to-one relation Nested of the joined
+	// record is joined as well (same join type, no conditions handle)
+	Nested  string   `json:"nested,omitempty"`
 	Select  []string `json:"select,omitempty"`
 	Omit    []string `json:"omit,omitempty"`
 	DBNames bool     `json:"db_names,omitempty"`
@@ -553,6 +556,12 @@ type load struct {
 	// association join; a sibling query (the same, with the last join replaced by
 	// Sibling, or by one more filler join when Sibling is nil) is derived from the
 	// same handle BEFORE this one runs, then both run and both are checked.
+	Finisher    string    `json:"finisher,omitempty"`     // struct shape: take (default) | first | last
+	Batch       int       `json:"batch,omitempty"`        // slices: FindInBatches with this batch size
+	ArrayExtra  int       `json:"array_extra,omitempty"`  // array shapes: spare elements beyond the rows expected
+	CountFirst  bool      `json:"count_first,omitempty"`  // Shared: a Count is derived from the handle and run before the two queries
+	ShareOn     bool      `json:"share_on,omitempty"`     // the conditions handle of the first join is passed to the second join too
+	OutStruct   bool      `json:"out_struct,omitempty"`   // assoc-find of a to-one relation into a single struct
 	QueryFields bool      `json:"query_fields,omitempty"` // gorm.Config{QueryFields: true}
 	PrepareStmt bool      `json:"prepare_stmt,omitempty"` // Session{PrepareStmt: true}
 	Shared      bool      `json:"shared,omitempty"`
@@ -647,6 +656,12 @@ func (l load) plan(root *model) *node {
 	for _, n := range top.kids {
 		if n.loaded {
 			n.conds = append(n.conds, assoc...)
+		}
+	}
+	for _, j := range l.Joins {
+		// Joins("Rel.Nested"): Nested of the joined record is joined, never preloaded
+		if j.Nested != "" && top.kids[j.Rel] != nil && top.kids[j.Rel].kids[j.Nested] != nil {
+			top.kids[j.Rel].kids[j.Nested].loaded = false
 		}
 	}
 	var inherit func(n *node, un bool)
@@ -1424,8 +1439,12 @@ func (c *checker) checkRecord(m *model, rec reflect.Value, n *node, joined map[s
 			}
 			continue
 		}
+		var sub map[string]*joinSpec
+		if js := joined[r.name]; js != nil && js.Nested != "" {
+			sub = map[string]*joinSpec{js.Nested: {Rel: js.Nested, Inner: js.Inner}}
+		}
 		for i, child := range got {
-			if err := c.checkRecord(tm, child, k, nil, false, fmt.Sprintf("%s[%d]", where, i)); err != nil {
+			if err := c.checkRecord(tm, child, k, sub, false, fmt.Sprintf("%s[%d]", where, i)); err != nil {
 				return err
 			}
 		}
@@ -1459,6 +1478,9 @@ func (c *checker) note(r *rel, owner row, want []row) {
 		c.stats[r.name] = st
 	}
 	st.parents++
+	if len(want) > 10 {
+		evid.Class("size:parent-with-more-than-10-rows")
+	}
 	switch len(want) {
 	case 0:
 		st.none++
@@ -1523,14 +1545,20 @@ func elementsOf(dest reflect.Value) []reflect.Value {
 		e := v.Index(i)
 		if e.Kind() != reflect.Ptr {
 			e = e.Addr()
+		} else if e.IsNil() {
+			continue
 		}
 		out = append(out, e)
 	}
 	return out
 }
 
-func newDest(m *model, shape string) reflect.Value {
+func newDest(m *model, shape string, n int) reflect.Value {
 	switch shape {
+	case "array":
+		return reflect.New(reflect.ArrayOf(n, m.typ))
+	case "ptrarray":
+		return reflect.New(reflect.ArrayOf(n, reflect.PtrTo(m.typ)))
 	case "struct":
 		return reflect.New(m.typ)
 	case "slice":
@@ -1561,8 +1589,19 @@ func padJoin(i int) string {
 }
 
 // addJoin appends one association join to the chain.
-func addJoin(tx *gorm.DB, d *testdb.DB, g *graph, root *model, j joinSpec) *gorm.DB {
+func addJoin(tx *gorm.DB, d *testdb.DB, g *graph, root *model, j joinSpec, sharedOn **gorm.DB) *gorm.DB {
 	var args []interface{}
+	jname := j.Rel
+	if j.Nested != "" {
+		jname += "." + j.Nested
+	}
+	if sharedOn != nil && *sharedOn != nil && j.On != nil {
+		// the very handle the previous join was given
+		if j.Inner {
+			return tx.InnerJoins(jname, *sharedOn)
+		}
+		return tx.Joins(jname, *sharedOn)
+	}
 	if j.On != nil || j.subset() {
 		on := d.Session(&gorm.Session{NewDB: true})
 		name := func(fn string) string {
@@ -1597,11 +1636,14 @@ func addJoin(tx *gorm.DB, d *testdb.DB, g *graph, root *model, j joinSpec) *gorm
 			}
 		}
 		args = append(args, on)
+		if sharedOn != nil {
+			*sharedOn = on
+		}
 	}
 	if j.Inner {
-		return tx.InnerJoins(j.Rel, args...)
+		return tx.InnerJoins(jname, args...)
 	}
-	return tx.Joins(j.Rel, args...)
+	return tx.Joins(jname, args...)
 }
 
 // buildBase starts the chain: scope, filler joins, duplicating join and the
@@ -1619,7 +1661,7 @@ func buildBase(d *testdb.DB, g *graph, l load, n int) *gorm.DB {
 		tx = tx.Joins(dupJoin)
 	}
 	for _, j := range l.Joins[:n] {
-		tx = addJoin(tx, d, g, root, j)
+		tx = addJoin(tx, d, g, root, j, nil)
 	}
 	return tx
 }
@@ -1628,8 +1670,13 @@ func buildBase(d *testdb.DB, g *graph, l load, n int) *gorm.DB {
 // parent filter; it does not execute.
 func finishQuery(tx *gorm.DB, d *testdb.DB, g *graph, l load, n int, extraPad bool) *gorm.DB {
 	root := g.fam.m(l.Root)
+	var on *gorm.DB
+	var sharedOn **gorm.DB
+	if l.ShareOn {
+		sharedOn = &on
+	}
 	for _, j := range l.Joins[n:] {
-		tx = addJoin(tx, d, g, root, j)
+		tx = addJoin(tx, d, g, root, j, sharedOn)
 	}
 	if extraPad {
 		tx = tx.Joins(padJoin(99))
@@ -1662,16 +1709,52 @@ func finishQuery(tx *gorm.DB, d *testdb.DB, g *graph, l load, n int, extraPad bo
 	return tx
 }
 
-func execQuery(tx *gorm.DB, l load, dest reflect.Value) error {
-	if l.Shape == "struct" {
-		return tx.Take(dest.Interface()).Error
+// execQuery runs the finisher and returns the loaded records.
+func execQuery(tx *gorm.DB, m *model, l load, dest reflect.Value) ([]reflect.Value, error) {
+	var err error
+	switch {
+	case l.Shape == "struct" && l.Finisher == "first":
+		err = tx.First(dest.Interface()).Error
+	case l.Shape == "struct" && l.Finisher == "last":
+		err = tx.Last(dest.Interface()).Error
+	case l.Shape == "struct":
+		err = tx.Take(dest.Interface()).Error
+	case l.Batch > 0:
+		// every batch reuses the destination: copy the records out
+		var all []reflect.Value
+		err = tx.FindInBatches(dest.Interface(), l.Batch, func(_ *gorm.DB, _ int) error {
+			for _, e := range elementsOf(dest) {
+				cp := reflect.New(e.Elem().Type())
+				cp.Elem().Set(e.Elem())
+				all = append(all, cp)
+			}
+			return nil
+		}).Error
+		return all, err
+	default:
+		err = tx.Find(dest.Interface()).Error
 	}
-	return tx.Find(dest.Interface()).Error
+	if err != nil {
+		return nil, err
+	}
+	elems := elementsOf(dest)
+	if dest.Elem().Kind() == reflect.Array {
+		// the unused tail of an array destination: elements without a key
+		// (preloading leaves empty, non-nil slices in them)
+		kept := elems[:0]
+		for _, e := range elems {
+			if !tupleOf(e, m.pk).allBlank() {
+				kept = append(kept, e)
+			}
+		}
+		elems = kept
+	}
+	return elems, nil
 }
 
 // runQuery performs the Preload/Joins load into dest.
-func runQuery(d *testdb.DB, g *graph, l load, dest reflect.Value) error {
-	return execQuery(finishQuery(buildBase(d, g, l, 0), d, g, l, 0, false), l, dest)
+func runQuery(d *testdb.DB, g *graph, l load, dest reflect.Value) ([]reflect.Value, error) {
+	return execQuery(finishQuery(buildBase(d, g, l, 0), d, g, l, 0, false), g.fam.m(l.Root), l, dest)
 }
 
 // siblingLoad is the load the sibling query of a Shared load performs.
@@ -1718,9 +1801,21 @@ func referenceRows(g *graph, l load) []string {
 					next = append(next, c+"|"+joinedWant(g.fam, root, r, j, reflect.Value{}))
 				}
 				for _, x := range cands {
-					if j.subset() {
+					switch {
+					case j.subset():
 						next = append(next, c+"|"+joinedWant(g.fam, root, r, j, x))
-					} else {
+					case j.Nested != "":
+						// the joined record's own to-one relation, joined the same way
+						tm := g.fam.m(r.target)
+						r2 := tm.rel(j.Nested)
+						c2 := g.related(r2, x, scope{})
+						if len(c2) == 0 && !j.Inner {
+							next = append(next, c+"|"+tupleOf(x, tm.pk).String()+"/-")
+						}
+						for _, y := range c2 {
+							next = append(next, c+"|"+tupleOf(x, tm.pk).String()+"/"+tupleOf(y, g.fam.m(r2.target).pk).String())
+						}
+					default:
 						next = append(next, c+"|"+tupleOf(x, g.fam.m(r.target).pk).String())
 					}
 				}
@@ -1752,7 +1847,16 @@ func resultRows(g *graph, l load, elems []reflect.Value) []string {
 			if len(got) == 0 {
 				s += "|-"
 			} else {
-				s += "|" + tupleOf(got[0], g.fam.m(r.target).pk).String()
+				tm := g.fam.m(r.target)
+				s += "|" + tupleOf(got[0], tm.pk).String()
+				if j.Nested != "" {
+					r2 := tm.rel(j.Nested)
+					if g2 := attached(g.fam, r2, got[0]); len(g2) == 0 {
+						s += "/-"
+					} else {
+						s += "/" + tupleOf(g2[0], g.fam.m(r2.target).pk).String()
+					}
+				}
 			}
 		}
 		out = append(out, s)
@@ -1765,7 +1869,7 @@ func resultRows(g *graph, l load, elems []reflect.Value) []string {
 // and the non-triviality of the case.
 func checkQuery(d *testdb.DB, g *graph, l load) (string, bool) {
 	if !l.Shared {
-		return checkQueryWith(d, g, l, func(dest reflect.Value) error { return runQuery(d, g, l, dest) })
+		return checkQueryWith(d, g, l, func(dest reflect.Value) ([]reflect.Value, error) { return runQuery(d, g, l, dest) })
 	}
 	// both queries are derived from one reusable handle before either runs
 	n := len(l.Joins) - 1
@@ -1773,31 +1877,36 @@ func checkQuery(d *testdb.DB, g *graph, l load) (string, bool) {
 	q1 := finishQuery(base, d, g, l, n, false)
 	l2, pad := l.siblingLoad()
 	q2 := finishQuery(base, d, g, l2, n, pad)
-	msg, nt := checkQueryWith(d, g, l, func(dest reflect.Value) error { return execQuery(q1, l, dest) })
+	if l.CountFirst {
+		// a third query from the same handle, run first: it must not leak into the others
+		var n int64
+		if err := base.Model(reflect.New(g.fam.m(l.Root).typ).Interface()).Count(&n).Error; err != nil {
+			return fmt.Sprintf("Count derived from the shared handle failed: %v", err), false
+		}
+	}
+	msg, nt := checkQueryWith(d, g, l, func(dest reflect.Value) ([]reflect.Value, error) { return execQuery(q1, g.fam.m(l.Root), l, dest) })
 	if msg != "" {
 		return "query derived first from the shared handle: " + msg, false
 	}
-	if msg2, _ := checkQueryWith(d, g, l2, func(dest reflect.Value) error { return execQuery(q2, l2, dest) }); msg2 != "" {
+	if msg2, _ := checkQueryWith(d, g, l2, func(dest reflect.Value) ([]reflect.Value, error) { return execQuery(q2, g.fam.m(l.Root), l2, dest) }); msg2 != "" {
 		return "sibling query derived from the shared handle (" + l2.String() + "): " + msg2, false
 	}
 	return "", nt
 }
 
-func checkQueryWith(d *testdb.DB, g *graph, l load, run func(dest reflect.Value) error) (string, bool) {
+func checkQueryWith(d *testdb.DB, g *graph, l load, run func(dest reflect.Value) ([]reflect.Value, error)) (string, bool) {
 	root := g.fam.m(l.Root)
-	dest := newDest(root, l.Shape)
+	dest := newDest(root, l.Shape, len(referenceRows(g, l))+l.ArrayExtra)
 	rounds := 1
 	if l.Reload {
 		rounds = 2
 	}
 	nt := false
 	for round := 0; round < rounds; round++ {
-		err := run(dest)
+		elems, err := run(dest)
 		want := referenceRows(g, l)
-		var elems []reflect.Value
 		switch {
 		case err == nil:
-			elems = elementsOf(dest)
 		case errors.Is(err, gorm.ErrRecordNotFound) && l.Shape == "struct":
 			if len(want) != 0 {
 				return fmt.Sprintf("load returned ErrRecordNotFound, reference gives rows %v", want), false
@@ -1929,7 +2038,9 @@ func checkAssocFind(d *testdb.DB, g *graph, l load) (string, bool) {
 		return fmt.Sprintf("Association(%s): %v", l.Assoc, as.Error), false
 	}
 	var out reflect.Value
-	if l.OutPtr {
+	if l.OutStruct {
+		out = reflect.New(tm.typ) // Find(&one) for a to-one relation
+	} else if l.OutPtr {
 		out = reflect.New(reflect.SliceOf(reflect.PtrTo(tm.typ)))
 	} else {
 		out = reflect.New(reflect.SliceOf(tm.typ))
@@ -1974,7 +2085,17 @@ func checkAssocFind(d *testdb.DB, g *graph, l load) (string, bool) {
 		}
 	}
 	got := elementsOf(out)
-	if gs, ws := renderRows(tm, got), renderRows(tm, want); !sameMultiset(gs, ws) {
+	if l.OutStruct {
+		if tupleOf(out, tm.pk).allBlank() {
+			got = nil // nothing found: the struct stays empty (checked below to be entirely zero)
+			if g0, z := rowString(tm, out), rowString(tm, reflect.New(tm.typ)); g0 != z {
+				return fmt.Sprintf("Association(%s).Find into a struct: no key but partly filled: %s", l.Assoc, g0), false
+			}
+		}
+		if err := memberCheck(tm, got, want, fmt.Sprintf("Association(%s).Find into a struct", l.Assoc), nil); err != nil {
+			return err.Error(), false
+		}
+	} else if gs, ws := renderRows(tm, got), renderRows(tm, want); !sameMultiset(gs, ws) {
 		return fmt.Sprintf("Association(%s).Find over parents %v returned %v, reference join gives %v", l.Assoc, renderRows(root, chosen), gs, ws), false
 	}
 	for i, e := range got {
@@ -2031,6 +2152,31 @@ func classesOf(g *graph, l load) []string {
 	if g.crowd {
 		set["size:crowded-children"] = true
 	}
+	if l.Shape == "struct" && l.Mode == "query" {
+		fin := l.Finisher
+		if fin == "" {
+			fin = "take"
+		}
+		set["finisher:"+fin] = true
+	} else if l.Mode == "query" {
+		if l.Batch > 0 {
+			set["finisher:find-in-batches"] = true
+		} else {
+			set["finisher:find"] = true
+		}
+	}
+	if l.ArrayExtra > 0 {
+		set["shape:array-with-spare-elements"] = true
+	}
+	if l.CountFirst {
+		set["handle:count-derived-first"] = true
+	}
+	if l.ShareOn {
+		set["handle:one-conditions-handle-two-joins"] = true
+	}
+	if l.OutStruct {
+		set["assoc-find:into-struct"] = true
+	}
 	if l.QueryFields {
 		set["config:query-fields"] = true
 	}
@@ -2070,6 +2216,12 @@ func classesOf(g *graph, l load) []string {
 		}
 		if j.On != nil {
 			set["cond:"+j.On.Form] = true
+		}
+		if j.Nested != "" {
+			r2 := f.m(r.target).rel(j.Nested)
+			set["path:joins-nested"] = true
+			set["joins-nested:"+r.kind+">"+r2.kind] = true
+			set["kind:"+r2.kind] = true
 		}
 		if j.subset() {
 			tm := f.m(r.target)
@@ -2167,6 +2319,32 @@ func classesOf(g *graph, l load) []string {
 			set["path:preload-nested"] = true
 		}
 	}
+	// type shapes behind the relations this load touches
+	touched := map[string]bool{}
+	var walk func(m *model, n *node)
+	walk = func(m *model, n *node) {
+		for name, k := range n.kids {
+			r := m.rel(name)
+			touched[m.name+"."+name] = true
+			walk(f.m(r.target), k)
+		}
+	}
+	if l.Mode == "assoc-find" {
+		touched[l.Root+"."+l.Assoc] = true
+	} else {
+		walk(root, l.plan(root))
+		for _, j := range l.Joins {
+			touched[l.Root+"."+j.Rel] = true
+			if j.Nested != "" {
+				touched[root.rel(j.Rel).target+"."+j.Nested] = true
+			}
+		}
+	}
+	for rel, label := range typeShapes {
+		if touched[rel] {
+			set[label] = true
+		}
+	}
 	// data features
 	for _, m := range f.models {
 		for _, r := range g.rows[m.name] {
@@ -2203,6 +2381,19 @@ func classesOf(g *graph, l load) []string {
 	}
 	sort.Strings(out)
 	return out
+}
+
+// typeShapes labels the relations whose key columns have a special type shape.
+var typeShapes = map[string]string{
+	"AUser.Gifts":   "type:references-non-primary-column",
+	"AGift.Giver":   "type:references-non-primary-column",
+	"AUser.Mentor":  "type:relation-in-embedded-struct",
+	"AUser.Profile": "type:sql.NullInt64-foreign-key",
+	"SPet.Owner":    "type:sql.NullString-foreign-key",
+	"SUser.Pets":    "type:sql.NullString-foreign-key",
+	"SUser.Langs":   "type:bytes-key+soft-deleting-join-model",
+	"SUser.Notes":   "type:polymorphicValue-tag",
+	"CUser.Langs":   "type:defined-string-type-key",
 }
 
 // ---------------------------------------------------------------- generators
@@ -2269,7 +2460,10 @@ func genLoad(rt *rapid.T, f *family, wide bool) load {
 	l.Root = rapid.SampledFrom([]string{f.name + "User", f.name + "User", f.name + "User", f.name + "User", f.name + "Company", f.name + "Pet"}).Draw(rt, "root")
 	root := f.m(l.Root)
 	l.Mode = rapid.SampledFrom([]string{"query", "query", "query", "assoc-find"}).Draw(rt, "mode")
-	l.Shape = rapid.SampledFrom([]string{"slice", "slice", "ptrslice", "ptrslice", "struct"}).Draw(rt, "shape")
+	l.Shape = rapid.SampledFrom([]string{"slice", "slice", "slice", "ptrslice", "ptrslice", "ptrslice", "struct", "struct", "array", "ptrarray"}).Draw(rt, "shape")
+	if l.Shape == "array" {
+		l.ArrayExtra = rapid.IntRange(0, 2).Draw(rt, "array-extra")
+	}
 	if l.Shape != "struct" {
 		l.Dup = rapid.IntRange(0, 3).Draw(rt, "dup") == 0
 		if rapid.IntRange(0, 3).Draw(rt, "filter") == 0 {
@@ -2296,8 +2490,12 @@ func genLoad(rt *rapid.T, f *family, wide bool) load {
 		}
 	}
 	if l.Mode == "assoc-find" {
+		if l.Shape == "array" || l.Shape == "ptrarray" {
+			l.Shape, l.ArrayExtra = "slice", 0
+		}
 		l.Assoc = rapid.SampledFrom(names).Draw(rt, "assoc")
 		l.OutPtr = rapid.Bool().Draw(rt, "out-ptr")
+		l.OutStruct = root.rel(l.Assoc).toOne() && l.Shape == "struct" && rapid.Bool().Draw(rt, "out-struct")
 		if rapid.Bool().Draw(rt, "with-cond") {
 			ar := root.rel(l.Assoc)
 			l.Cond = genCondFor(rt, "cond", inlineForms, ar, f.m(ar.target))
@@ -2306,6 +2504,7 @@ func genLoad(rt *rapid.T, f *family, wide bool) load {
 	}
 	if l.Shape == "struct" {
 		l.Reload = rapid.Bool().Draw(rt, "reload")
+		l.Finisher = rapid.SampledFrom([]string{"", "first", "last"}).Draw(rt, "finisher")
 	}
 	used := map[string]bool{}
 	// association joins (to-one relations); not combined with a root Unscoped():
@@ -2320,10 +2519,23 @@ func genLoad(rt *rapid.T, f *family, wide bool) load {
 			}
 			used[name] = true
 			j := joinSpec{Rel: name, Inner: rapid.IntRange(0, 3).Draw(rt, "join.inner") == 0}
-			if rapid.IntRange(0, 2).Draw(rt, "join.on") == 0 {
+			var below []string
+			for _, r2 := range f.m(root.rel(name).target).rels {
+				if r2.toOne() {
+					below = append(below, r2.name)
+				}
+			}
+			if len(below) > 0 && rapid.IntRange(0, 3).Draw(rt, "join.nested") == 0 {
+				j.Nested = rapid.SampledFrom(below).Draw(rt, "join.nested.rel") // Joins("Boss.Company")
+			} else if rapid.IntRange(0, 2).Draw(rt, "join.on") == 0 {
 				j.On = genCond(rt, "join.on", onForms)
 			}
 			l.Joins = append(l.Joins, j)
+		}
+		// one conditions handle given to both joins
+		if len(l.Joins) == 2 && l.Joins[0].On != nil && l.Joins[0].On.Form == "on-gte" && l.Joins[1].Nested == "" && rapid.Bool().Draw(rt, "join.share-on") {
+			l.Joins[1].On = &cond{Form: "on-gte", K: l.Joins[0].On.K}
+			l.ShareOn = true
 		}
 	}
 	np := rapid.IntRange(0, 3).Draw(rt, "preloads.n")
@@ -2394,6 +2606,27 @@ func genLoad(rt *rapid.T, f *family, wide bool) load {
 			underJoined = true
 		}
 	}
+	// FindInBatches: pages by the (single) primary key, so no duplicated parents
+	if (l.Shape == "slice" || l.Shape == "ptrslice") && len(l.Joins) == 0 && !l.Dup && len(root.pk) == 1 && rapid.IntRange(0, 3).Draw(rt, "batches") == 0 {
+		l.Batch = rapid.IntRange(1, 3).Draw(rt, "batch-size")
+	}
+	// domain: one relation is spelled one way per load. "Extra.Mentor.X" and
+	// "Mentor.Y" are two entries to gorm (embedded name vs relation name), the
+	// relation is preloaded once per entry and the later load replaces the earlier
+	// one with its nested levels - the caller named the same relation twice.
+	mentors, spelled := 0, false
+	for _, p := range l.Preloads {
+		if strings.Contains(p.Path, "Mentor") {
+			mentors++
+			spelled = spelled || strings.Contains(p.Path, "Extra.")
+		}
+	}
+	if mentors > 1 && spelled {
+		for i := range l.Preloads {
+			l.Preloads[i].Path = strings.ReplaceAll(l.Preloads[i].Path, "Extra.", "")
+		}
+		evid.Excluded("domain:embedded-relation-spelled-two-ways")
+	}
 	// a column subset (scope-select) only on a relation nothing is nested below
 	// (nested levels need that level's other key columns)
 	for i := range l.Preloads {
@@ -2411,7 +2644,8 @@ func genLoad(rt *rapid.T, f *family, wide bool) load {
 	}
 	// shared reusable handle (needs a last association join to add on top of it)
 	if len(l.Joins) > 0 && rapid.IntRange(0, 2).Draw(rt, "shared") == 0 {
-		l.Shared, l.Reload = true, false
+		l.Shared, l.Reload, l.ShareOn = true, false, false
+		l.CountFirst = rapid.Bool().Draw(rt, "shared.count-first")
 		l.Pads = rapid.IntRange(0, 3).Draw(rt, "shared.pads")
 		var free []string
 		for _, n := range toOne {
@@ -2443,7 +2677,7 @@ func genLoad(rt *rapid.T, f *family, wide bool) load {
 				carrier = true
 			}
 		}
-		if carrier || rapid.IntRange(0, 1).Draw(rt, "join.subset") == 0 {
+		if carrier || j.Nested != "" || l.ShareOn || rapid.IntRange(0, 1).Draw(rt, "join.subset") == 0 {
 			continue
 		}
 		var others []string
@@ -2528,7 +2762,7 @@ func genLoad(rt *rapid.T, f *family, wide bool) load {
 
 func isJoined(l load, name string) bool {
 	for _, j := range l.Joins {
-		if j.Rel == name {
+		if j.Rel == name || (j.Nested != "" && j.Rel+"."+j.Nested == name) {
 			return true
 		}
 	}
